@@ -180,7 +180,7 @@ def main(argv):
         r = witness_replay(job)
         print(json.dumps(r, indent=1))
         return 1 if r.get('reproduced') else 0
-    findings = [f for f in load_findings() if f['property'] == prop]
+    findings = [f for f in load_findings() if f['property'] == prop or prop in f.get('also', [])]
     known = [f for f in findings if f['status'] == 'known']
     jobs = registry.jobs_for(prop, tier)
     import re
